@@ -143,6 +143,8 @@ MUTANTS = [
      "    global _scratch\n    _scratch = (lval, rval)\n    lval, ltype = value_and_type(_scratch[0])\n    rval, rtype = value_and_type(_scratch[1])\n    conversions = IMPLICIT_DATA_TYPE_CONVERSIONS[op]", ['C03']),
     ('busy_flag_without_finally', 'hotxlfp/parser.py', "        result = None\n        error = None\n        try:\n            if expression == '':\n                result = ''\n            else:\n                result = self.parser.parse(expression)",
      "        result = None\n        error = None\n        if self.__dict__.get('_busy'):\n            return {'result': None, 'error': '#ERROR!'}\n        try:\n            if expression == '':\n                result = ''\n            else:\n                self._busy = True\n                result = self.parser.parse(expression)\n                self._busy = False", ['C02', 'C03']),
+    ('global_rlock_held_during_callbacks', 'hotxlfp/parser.py', "    def parse(self, expression):\n        result = None",
+     "    def parse(self, expression):\n        with _PARSE_LOCK:\n            return self._parse_locked(expression)\n\n    def _parse_locked(self, expression):\n        result = None", ['C01']),
     ('per_parser_rlock_held_during_callbacks', 'hotxlfp/parser.py', "    def parse(self, expression):\n        result = None",
      "    def parse(self, expression):\n        with self._lock:\n            return self._parse_locked(expression)\n\n    def _parse_locked(self, expression):\n        result = None", ['C03']),
     ('per_parser_plain_lock', 'hotxlfp/parser.py', "    def parse(self, expression):\n        result = None",
@@ -152,8 +154,6 @@ MUTANTS = [
 
 # Changes under which every property still HOLDS: no check may raise an alarm (or a harness error) on them.
 BENIGN = [
-    ('benign_global_rlock_around_parse', 'hotxlfp/parser.py', "    def parse(self, expression):\n        result = None",
-     "    def parse(self, expression):\n        with _PARSE_LOCK:\n            return self._parse_locked(expression)\n\n    def _parse_locked(self, expression):\n        result = None"),
     ('benign_bounded_lru_cache', 'hotxlfp/helper/cell.py', "def column_label_to_index(label):", "@functools.lru_cache(maxsize=2048)\ndef column_label_to_index(label):"),
     ('benign_clock_read_moved_to_utils', 'hotxlfp/formulas/dateandtime.py', "    return datetime.datetime.now()", "    return utils.current_time()"),
     ('benign_rand_uses_uniform', 'hotxlfp/formulas/mathtrig.py', "    return random.random()", "    return random.uniform(0, 1)"),
@@ -164,7 +164,7 @@ BENIGN = [
 ]
 
 EXTRA_EDITS = {
-    'benign_global_rlock_around_parse': [('hotxlfp/parser.py', "import traceback\n", "import traceback\nimport threading\n\n_PARSE_LOCK = threading.RLock()\n")],
+    'global_rlock_held_during_callbacks': [('hotxlfp/parser.py', "import traceback\n", "import traceback\nimport threading\n\n_PARSE_LOCK = threading.RLock()\n")],
     'per_parser_rlock_held_during_callbacks': [('hotxlfp/parser.py', "import traceback\n", "import traceback\nimport threading\n"),
                                                ('hotxlfp/parser.py', "        self.debug = debug\n", "        self.debug = debug\n        self._lock = threading.RLock()\n")],
     'per_parser_plain_lock': [('hotxlfp/parser.py', "import traceback\n", "import traceback\nimport threading\n"),
